@@ -55,8 +55,11 @@ func (g *ValGen) u64() uint64 {
 }
 
 var specialF64 = []uint64{0, 1 << 63, 0x3ff0000000000000, 0xbff0000000000000, 0x7ff0000000000000, 0xfff0000000000000,
-	0x7ff8000000000001, 0xfff8000000000000, 1, 0x000fffffffffffff, 0x0010000000000000, 0x7fefffffffffffff, 0x400921fb54442d18}
-var specialF32 = []uint32{0, 1 << 31, 0x3f800000, 0xbf800000, 0x7f800000, 0xff800000, 0x7fc00001, 1, 0x007fffff, 0x00800000, 0x7f7fffff, 0x40490fdb}
+	0x7ff8000000000001, 0xfff8000000000000, 1, 0x000fffffffffffff, 0x0010000000000000, 0x7fefffffffffffff, 0x400921fb54442d18,
+	// whole numbers where an integer conversion or a formatter changes its mind: 2^63, -2^63, 2^64, 2^53, 2^31, 1e6, 1e21, 1e15
+	0x43e0000000000000, 0xc3e0000000000000, 0x43f0000000000000, 0x4340000000000000, 0x41e0000000000000, 0x412e848000000000, 0x444b1ae4d6e2ef50, 0x430c6bf526340000}
+var specialF32 = []uint32{0, 1 << 31, 0x3f800000, 0xbf800000, 0x7f800000, 0xff800000, 0x7fc00001, 1, 0x007fffff, 0x00800000, 0x7f7fffff, 0x40490fdb,
+	0x5f000000, 0xdf000000, 0x5f800000, 0x4f000000, 0x49742400} // 2^63, -2^63, 2^64, 2^31, 1e6
 
 func (g *ValGen) f64bits() uint64 {
 	if g.r.Chance(50) {
